@@ -29,6 +29,7 @@ type VerifSub struct {
 	Reaccess     bool // an access re-check is deferred until the queued events are released
 	Queued       int
 	HasAccess    bool
+	Failed       bool // the resource failed to load: the subscription holds no cache subscription
 	Refs         []string
 }
 
@@ -67,6 +68,7 @@ func (s *Service) VerifConns() []VerifConn {
 					Reaccess:     sub.flags&flagReaccess != 0,
 					Queued:       len(sub.eventQueue),
 					HasAccess:    sub.access != nil,
+					Failed:       sub.err != nil,
 				}
 				for r := range sub.refs {
 					vs.Refs = append(vs.Refs, r)
